@@ -23,7 +23,12 @@ import sys, json
 sys.path.insert(0, sys.argv[1])
 from pymemcache.client.murmur3 import murmur3_32
 vs = json.load(sys.stdin)
-print(json.dumps([murmur3_32("".join(map(chr, d)), s) for d, s in vs]))
+def h(d, s):
+    try:
+        return murmur3_32("".join(map(chr, d)), s)
+    except Exception as e:
+        return "raised:" + type(e).__name__
+print(json.dumps([h(d, s) for d, s in vs]))
 """
 
 
@@ -55,7 +60,12 @@ def main(tier, rep):
     for _ in range(60 if tier == "quick" else 600):
         n = rnd.randrange(1, 12)
         vec.append(([rnd.choice([0x100, 0x20AC, 0x4E2D, 0x1F600, 0xFF, 0x41, 0x10FFFF]) for _ in range(n)], rnd.choice(seeds)))
-    got = [murmur3_32("".join(map(chr, d)), s) for d, s in vec]
+    def h(d, s):
+        try:
+            return murmur3_32("".join(map(chr, d)), s)
+        except Exception as e:   # noqa -- "any string hashes to a 32-bit value": a raise is an outcome, not a harness failure
+            return "raised:" + type(e).__name__
+    got = [h(d, s) for d, s in vec]
     env = dict(os.environ, PYTHONHASHSEED="random")
     p = subprocess.run([sys.executable, "-B", "-c", CHILD, common.REPO], input=json.dumps(vec), text=True,
                        stdout=subprocess.PIPE, stderr=subprocess.PIPE, env=env, timeout=600)
